@@ -243,6 +243,9 @@ def _hot_methods(m, cls, qf, roots=("urlopen",)):
                     changed = True
                     break
     hot -= {"__init__", "close", "__exit__"} | set(roots)
+    # module-level helpers of the same kind (`def _close_if_set(conn): if conn: conn.close()`) are interpreted in place as well
+    mods = {f_.module for f_ in meths.values()}
+    _hot_methods.functions = {q_ for q_, f_ in m.funcs.items() if f_.cls is None and f_.module in mods and direct(f_.node)}
     return meths, hot
 
 
@@ -254,7 +257,7 @@ def lease_analysis(ctx, cls):
     meths, hot = _hot_methods(m, cls, qf)
     if not hot:
         raise AnalysisError("no method with a queue event is reachable from urlopen")
-    inline = {meths[n_].qual for n_ in hot}
+    inline = {meths[n_].qual for n_ in hot} | set(_hot_methods.functions)
     it = Interp(m, rule, cls, fi.module, inline, budget=Budget(1500000))
     it.func_qual = fi.qual
     it.track_faults = True
